@@ -16,7 +16,7 @@ import (
 func init() {
 	register("C04", PropCheck{
 		Title:      "Navigation stack and page index follow the documented move table",
-		Explain:    "Each navigation step applies exactly the tabulated update, decided structurally: (R1) the target dispatcher's string switch maps '_'->{Up,Pop}, '>'->{Next}, '<'->{Previous}, '^'->{Rewind}, '.'->{Same}, any other name->{Down(name),Push}, and its token set equals the special-node table of doc/texinfo/navigation.texi; (R2) the effect signatures of the State movers on the success path (Down: ExecPath=append(ExecPath,param), SizeIdx=0; Up: ExecPath one shorter, SizeIdx=0; Next: SizeIdx+1 only; Previous: SizeIdx-1 only, refused with IndexError at 0; Same: neither); (R3) ExecPath and SizeIdx are stored to only inside package state and every such store has one of the tabulated value classes (constant 0, self +/- 1, append of a parameter, re-slice to a shorter prefix); (R4) inside package vm the movers are called only from the dispatcher and Rewind; (R5) every return of Rewind after an Up passes the Top()==true edge or an error edge, and Rewind pairs Up with Pop; (R6) the Up of the '_' case is only reached behind the Top()==false edge. With R1-R6 the position after any history equals the table's by induction on the history; (R7) the depth limit applies to descents only: in the dispatcher Up, Next, Previous, Same and Rewind are reachable without passing any comparison with state.MaxLevel (added after seeded change C04-E, which hoisted the guard to the top of the function); (R8) ExecPath and SizeIdx are written to the snapshot unconditionally (no omitempty; shared with C07 R1, added after C04-F) R4 also covers Rewind itself: only the dispatcher family calls it (added after seeded change C04-H, a matching CROAK that rewinds). (R9) no library function stores through an index into State.ExecPath or a re-slice of it - frames change only by push and pop (added after seeded change C04-J). R6 follows the ascent into a helper of package vm.",
+		Explain:    "Each navigation step applies exactly the tabulated update, decided structurally: (R1) the target dispatcher's string switch maps '_'->{Up,Pop}, '>'->{Next}, '<'->{Previous}, '^'->{Rewind}, '.'->{Same}, any other name->{Down(name),Push}, and its token set equals the special-node table of doc/texinfo/navigation.texi; (R2) the effect signatures of the State movers on the success path (Down: ExecPath=append(ExecPath,param), SizeIdx=0; Up: ExecPath one shorter, SizeIdx=0; Next: SizeIdx+1 only; Previous: SizeIdx-1 only, refused with IndexError at 0; Same: neither); (R3) ExecPath and SizeIdx are stored to only inside package state and every such store has one of the tabulated value classes (constant 0, self +/- 1, append of a parameter, re-slice to a shorter prefix); (R4) inside package vm the movers are called only from the dispatcher and Rewind; (R5) every return of Rewind after an Up passes the Top()==true edge or an error edge, and Rewind pairs Up with Pop; (R6) the Up of the '_' case is only reached behind the Top()==false edge. With R1-R6 the position after any history equals the table's by induction on the history; (R7) the depth limit applies to descents only: in the dispatcher Up, Next, Previous, Same and Rewind are reachable without passing any comparison with state.MaxLevel (added after seeded change C04-E, which hoisted the guard to the top of the function); (R8) ExecPath and SizeIdx are written to the snapshot unconditionally (no omitempty; shared with C07 R1, added after C04-F) R4 also covers Rewind itself: only the dispatcher family calls it (added after seeded change C04-H, a matching CROAK that rewinds). (R9) no library function stores through an index into State.ExecPath or a re-slice of it - frames change only by push and pop (added after seeded change C04-J). R6 follows the ascent into a helper of package vm. (R10) in the engine function that loads sessions, every return after a successful Persister.Save passes WithContent: a flushing persister replaces its content on Save, so the engine re-attaches its own state and cache (added after seeded change C04-L).",
 		NotDecided: "that Top()'s notion of 'entry node' matches the application's configuration; failing external calls between moves; equality is argued by induction, not enumerated.",
 		Run:        runC04,
 	})
